@@ -188,6 +188,12 @@ ListOf(a) ==                                     \* a string becomes a list of c
     ELSE a.v
 ReverseOf(a) == IF IsStr(a) THEN [t |-> a.t, v |-> Rev(a.v)] ELSE L(Rev(a.v))
 
+\* Object identity.  `list` is Python's list(), sort / dictsort are Python's sorted(): each
+\* call builds a NEW list object, also when the argument already is a list -- changing the
+\* result afterwards (append / pop / sort) never changes the argument (SeqCalls.tla models the
+\* heap; SeqFiltersTrace!C22_ResultFresh checks the real filters).
+BuildsNewList(f) == f \in {"list", "sort", "dictsort"}
+
 \* the item filters map() is exercised with
 ApplyItemFilter(name, a) ==
     CASE name = "upper" -> S(UpperS(a.v))
